@@ -154,12 +154,23 @@ func c07Row(args [][]string) (level uint32, o18, inbm, fr, nbm bool, battr, blev
 func c07Run(args [][]string) []string {
 	w := c07w
 	op := ai(args[0][0])
-	if op != 1 && op != 3 && op != 4 {
+	if op != 1 && op != 3 && op != 4 && op != 5 && op != 6 {
+		return []string{"9"}
+	}
+	if (op == 5 || op == 6) && len(args[0]) != 2 {
 		return []string{"9"}
 	}
 	level, o18, inbm, fr, nbm, battr, blevel := c07Row(args)
 	w.plantUser(level, o18, nil)
 	w.plantBoard(battr, blevel, inbm, fr, nbm, nil)
+	if op == 5 {
+		return c07RunContent(w, int(ai(args[0][1])))
+	}
+	c07Content.set(w, c07FullContent) // every other op runs on the fixture's full content
+	c07Content.counters(w)
+	if op == 6 {
+		return c07RunListing(w, int(ai(args[0][1])))
+	}
 	fn := &ptttype.Filename_t{}
 	copy(fn[:], c07Article)
 	boardID := &w.boardID
@@ -259,6 +270,230 @@ func c07Run(args [][]string) []string {
 	w.restore()
 	out = append(out, c07BbsSummary(uu, bb)...)
 	return out
+}
+
+// ---------------------------------------------------------------------------------------------
+// op 5: the article entry points on degenerate board content.
+
+const (
+	c07HasIndex    = 1  // .DIR with the fixture's two records
+	c07HasPinned   = 2  // .DIR.bottom with the fixture's one record
+	c07HasBody     = 4  // the article file
+	c07HasTemplate = 8  // postsample.0
+	c07Loaded      = 16 // NBottom of the segment loaded from .DIR.bottom (else 0: not loaded yet)
+	c07FullContent = 31
+)
+
+// c07ContentState keeps the original bytes of the four files of the target board and what is on disk now.
+type c07ContentState struct {
+	ready   bool
+	dir     string
+	names   [4]string
+	orig    [4][]byte
+	current int // file bits on disk, -1 unknown
+	bits    int
+	total   int32
+	nbottom uint8
+	lastPos types.Time4
+}
+
+var c07Content = &c07ContentState{current: -1}
+
+func (cs *c07ContentState) init(w *world) {
+	if cs.ready {
+		return
+	}
+	cs.dir = filepath.Join(w.env.home, "boards", string(w.boardID[0]), types.CstrToString(w.boardID[:]))
+	cs.names = [4]string{".DIR", ".DIR.bottom", c07Article, "postsample.0"}
+	for k, n := range cs.names {
+		b, err := os.ReadFile(filepath.Join(cs.dir, n))
+		must(err)
+		cs.orig[k] = b
+	}
+	cs.current = c07FullContent &^ c07Loaded
+	cs.bits = -1
+	cs.ready = true
+}
+
+// set puts the files of the content on disk (only when they differ from what is there) and lets the code's own
+// loaders (SetBTotal / SetBottomTotal) compute the counters of that content; counters() replays them.
+func (cs *c07ContentState) set(w *world, bits int) {
+	cs.init(w)
+	files := bits &^ c07Loaded
+	if files != cs.current {
+		for k, n := range cs.names {
+			p := filepath.Join(cs.dir, n)
+			if files&(1<<uint(k)) != 0 {
+				must(os.WriteFile(p, cs.orig[k], 0o644))
+			} else if err := os.Remove(p); err != nil && !os.IsNotExist(err) {
+				must(err)
+			}
+		}
+		cs.current = files
+		cs.bits = -1
+	}
+	if bits == cs.bits {
+		return
+	}
+	cs.bits = bits
+	k := w.bid - 1
+	cache.Shm.Shm.Total[k] = 0
+	cache.Shm.Shm.LastPostTime[k] = 0
+	cache.Shm.Shm.NBottom[k] = 0
+	must(cache.SetBTotal(w.bid))
+	if bits&c07Loaded != 0 {
+		must(cache.SetBottomTotal(w.bid))
+	}
+	cs.total, cs.lastPos, cs.nbottom = cache.Shm.Shm.Total[k], cache.Shm.Shm.LastPostTime[k], cache.Shm.Shm.NBottom[k]
+}
+
+// counters writes the counters of the current content back (a reader may have loaded them as a side effect).
+func (cs *c07ContentState) counters(w *world) {
+	k := w.bid - 1
+	cache.Shm.Shm.Total[k], cache.Shm.Shm.LastPostTime[k], cache.Shm.Shm.NBottom[k] = cs.total, cs.lastPos, cs.nbottom
+}
+
+func b2n(b bool) int {
+	if b {
+		return 1
+	}
+	return 0
+}
+
+// errClass: the verdict is read from the error value alone.
+func errClass(err error) int64 {
+	switch {
+	case err == nil:
+		return 1
+	case err == ptt.ErrNotPermitted:
+		return 0
+	case err == ptt.ErrInvalidParams || err == bbs.ErrInvalidParams:
+		return 11
+	case err == ptt.ErrNoRecord:
+		return 12
+	case os.IsNotExist(err):
+		return 13
+	}
+	return 17
+}
+
+func c07RunContent(w *world, bits int) []string {
+	if bits < 0 || bits > c07FullContent {
+		return []string{"9"}
+	}
+	cs := c07Content
+	cs.set(w, bits)
+	fn := &ptttype.Filename_t{}
+	copy(fn[:], c07Article)
+	boardID := &w.boardID
+	user := func() *ptttype.UserecRaw { w.restore(); cs.counters(w); u := w.user; return &u }
+	pair := func(err error, n int) []string {
+		if err != nil && n < 0 {
+			n = 0 // the -1 an index search returns next to its error is not a payload
+		}
+		return []string{oi(errClass(err)), oi(int64(n))}
+	}
+	out := []string{"0"}
+
+	valid, err := ptt.IsBoardValidUser(user(), w.uid, boardID, w.bid)
+	out = append(out, pair(err, b2n(valid))...)
+	sums, _, next, _, err := ptt.LoadGeneralArticles(user(), w.uid, boardID, w.bid, 0, 10, true)
+	n := len(sums)
+	if next != nil {
+		n++
+	}
+	out = append(out, pair(err, n)...)
+	sums, err = ptt.LoadBottomArticles(user(), w.uid, boardID, w.bid)
+	out = append(out, pair(err, len(sums))...)
+	idx, err := ptt.FindArticleStartIdx(user(), w.uid, boardID, w.bid, c07ArtTime, fn, true)
+	out = append(out, pair(err, int(idx))...)
+	content, _, _, err := ptt.ReadPost(user(), w.uid, boardID, w.bid, fn, 0, false)
+	out = append(out, pair(err, len(content))...)
+	content, _, _, err = ptt.ReadPostTemplate(user(), w.uid, boardID, w.bid, 1, 0, false)
+	out = append(out, pair(err, len(content))...)
+
+	uu := bbs.UUserID(types.CstrToString(w.userID[:]))
+	bb := bbs.ToBBoardID(w.bid, boardID)
+	user()
+	valid, err = bbs.IsBoardValidUser(uu, bb)
+	out = append(out, pair(err, b2n(valid))...)
+	user()
+	bs, nextIdx, _, _, _, err := bbs.LoadGeneralArticles(uu, bb, "", 10, true)
+	n = len(bs)
+	if nextIdx != "" {
+		n++
+	}
+	out = append(out, pair(err, n)...)
+	user()
+	bs, err = bbs.LoadBottomArticles(uu, bb)
+	out = append(out, pair(err, len(bs))...)
+	user()
+	content, _, _, err = bbs.GetArticle(uu, bb, bbs.ToArticleID(fn), 0, false)
+	out = append(out, pair(err, len(content))...)
+	w.restore()
+	return out
+}
+
+// ---------------------------------------------------------------------------------------------
+// op 6: the listings where the surrounding list is degenerate. variant 0: nothing to list; variant 1: the target
+// board is the only candidate. Each listing answers (code, attr, length of the list).
+
+func listingCode3(bid ptttype.Bid, l []*ptttype.BoardSummaryRaw, err error) []string {
+	return append(listingCode(bid, l, err), oi(int64(len(l))))
+}
+
+func c07RunListing(w *world, variant int) []string {
+	if variant != 0 && variant != 1 {
+		return []string{"9"}
+	}
+	user := func() *ptttype.UserecRaw { w.restore(); u := w.user; return &u }
+	name := types.CstrToString(w.boardID[:])
+	kw := []byte("zzzzqq") // no board of the fixture carries it, neither as prefix nor inside name / title
+	bids := []ptttype.Bid{}
+	cache.Shm.Shm.NHOTs = 0
+	if variant == 1 {
+		kw = []byte(name)
+		bids = []ptttype.Bid{w.bid}
+		cache.Shm.Shm.NHOTs = 1
+		cache.Shm.Shm.HBcache[0] = ptttype.BidInStore(w.bid - 1)
+	}
+	out := []string{"0"}
+	l, next, err := ptt.LoadGeneralBoards(user(), w.uid, 1, 200, nil, kw, true, ptttype.BSORT_BY_NAME)
+	if next != nil {
+		l = append(l, next)
+	}
+	out = append(out, listingCode3(w.bid, l, err)...)
+	start, err := cache.FindBoardAutoCompleteStartIdx(kw, true)
+	switch {
+	case err != nil:
+		out = append(out, "7", "-1", "0")
+	case start < 0: // the callers answer the empty list without asking ptt
+		out = append(out, "0", "-1", "0")
+	default:
+		l, next, err = ptt.LoadAutoCompleteBoards(user(), w.uid, start, 200, kw, true)
+		if next != nil {
+			l = append(l, next)
+		}
+		out = append(out, listingCode3(w.bid, l, err)...)
+	}
+	l, err = ptt.LoadBoardsByBids(user(), w.uid, bids)
+	out = append(out, listingCode3(w.bid, l, err)...)
+	l, err = ptt.LoadHotBoards(user(), w.uid)
+	out = append(out, listingCode3(w.bid, l, err)...)
+	// the class listing of a class without children (no board of the fixture has the target as its group)
+	out = append(out, c07EmptyClass(w, user())...)
+	w.restore()
+	return out
+}
+
+func c07EmptyClass(w *world, u *ptttype.UserecRaw) (res []string) {
+	defer func() {
+		if r := recover(); r != nil {
+			res = []string{"8", "-1", "0"}
+		}
+	}()
+	l, err := ptt.LoadClassBoards(u, w.uid, w.bid, ptttype.BSORT_BY_NAME)
+	return listingCode3(w.bid, l, err)
 }
 
 // bbs.LoadBoardSummary: 1 title present, 2 answered without title, 8 panicked
